@@ -603,7 +603,19 @@ def _subn(self, repl, string, count=0):
     if callable(repl):
         replfn = repl
     else:
-        replfn = lambda m: m.expand(repl)  # noqa: E731
+        # a replacement template is literal unless it contains a backslash (escapes / group references, which
+        # sre processes with rules of its own): then everything is realised and the real engine runs
+        has_backslash = False
+        for c in repl:
+            if c == 92:
+                has_backslash = True
+                break
+        if has_backslash:
+            with NoTracing():
+                from crosshair.core import deep_realize as _dr
+
+                return re.Pattern.subn(self, _dr(repl), _dr(string), count)
+        replfn = lambda m: repl  # noqa: E731
     pieces = string[:0]
     last = 0
     for m in matches:
